@@ -101,7 +101,9 @@ def _stream(w, cfg):
         if end is None or end[1] == "closed":
             continue
         fin = analyse(cfg, call)
-        if fin.cancelled or fin.nested or fin.faulted:
+        hook_faults_only = all(r[1] in ("metric", "log", "before_sleep")
+                               for r in call.records if r[0] == "fault")
+        if fin.cancelled or fin.nested or (fin.faulted and not hook_faults_only):
             continue
         metrics = [r for r in call.records if r[0] == "metric" and not r[1].startswith("circuit_")]
         logs = [r for r in call.records if r[0] == "log" and not r[1].startswith("circuit_")]
